@@ -156,7 +156,10 @@ def make_native(cls, fields):
     """Real instance of cls with the given attribute values, bypassing __init__."""
     if cls is types.SimpleNamespace:
         return types.SimpleNamespace(**fields)
-    o = cls.__new__(cls)
+    try:
+        o = cls.__new__(cls)
+    except TypeError:
+        o = object.__new__(cls)
     for k, v in fields.items():
         try:
             object.__setattr__(o, k, v)
